@@ -309,8 +309,7 @@ Section Strip.
     rewrite Hmove. cbn [res_bind].
     (* the file *)
     assert (Hfile :
-      file_set_len (file_set_len (data_write f1 (DATA0 + frl (concat A ++ part')) [0; 1])
-                                 (DATA0 + frl (concat A ++ part'))) (c_flen c)
+      file_set_len (file_set_len f1 (DATA0 + frl (concat A ++ part'))) (c_flen c)
       = c_file (c_truncate c k)).
     { assert (Hsplit : fr (c_all c) = fr (concat A ++ part') ++ fr (skipn m post)).
       { rewrite Hall. subst part'. rewrite <- fr_app, <- app_assoc, firstn_skipn. reflexivity. }
@@ -320,17 +319,13 @@ Section Strip.
         - rewrite fr_cons, app_length. pose proof (frame_length_pos (rec_body x)). unfold rec_frame. lia. }
       pose proof (wf_flen c W) as Hfl. unfold c_dcur in Hfl. unfold frl in Hfl at 1. rewrite Hsplit in Hfl.
       unfold nlen in Hfl. rewrite app_length in Hfl.
-      unfold data_write, f1. cbn [f_hdr f_idx f_data f_len].
-      replace (N.to_nat (DATA0 + frl (concat A ++ part') - DATA0)) with (length (fr (concat A ++ part')))
-        by (unfold frl, nlen; lia).
+      unfold f1.
       set (off := length (fr (concat A ++ part'))).
-      assert (Hoff : (off <= length (fr (c_all c)))%nat) by (rewrite Hsplit, app_length; subst off; lia).
+      assert (Hoff : (off < length (fr (c_all c)))%nat) by (rewrite Hsplit, app_length; subst off; lia).
       unfold file_set_len at 2. cbn [f_hdr f_idx f_data f_len].
-      rewrite write_at_length by exact Hoff.
       replace (DATA0 + frl (concat A ++ part') - DATA0) with (N.of_nat off) by (unfold frl, nlen; subst off; lia).
-      cbn [length].
-      destruct (N.of_nat off <? N.of_nat (Nat.max (length (fr (c_all c))) (off + 2))) eqn:E1; [|lia].
-      rewrite Nat2N.id, firstn_write_at by exact Hoff.
+      destruct (N.of_nat off <? N.of_nat (length (fr (c_all c)))) eqn:E1; [|lia].
+      rewrite Nat2N.id.
       assert (Hfn : firstn off (fr (c_all c)) = fr (concat A ++ part')).
       { subst off. rewrite Hsplit, firstn_app, firstn_all, Nat.sub_diag. cbn [firstn]. apply app_nil_r. }
       rewrite Hfn.
